@@ -6,6 +6,8 @@ A path cover of that graph is replayed on real survey objects in real .geoh5 fil
 implementation is projected onto the abstract state of the specification (live metadata of every entity,
 the raw "Metadata" JSON of its node read with plain h5py, what the partner getters return, which stations /
 loops each entity holds and which loops the receivers refer to) and compared with the state TLC computed.
+On the prefix of a path that another path has already verified, only metadata (live + raw) and geometry are compared and
+no partner getter is called: the getters fill lazy caches, and edits must also be exercised on cold caches.
 """
 from __future__ import annotations
 
